@@ -10,6 +10,7 @@
 #include <xenium/reclamation/lock_free_ref_count.hpp>
 #include <xenium/policy.hpp>
 #undef sort
+#undef vector
 #undef unique
 #undef binary_search
 #undef lower_bound
